@@ -48,7 +48,7 @@ type scheduler struct {
 	timers   []*Chan
 	locks    map[*Value]*lockState
 	conds    map[*Value][]*condWaiter
-	accesses map[*Value]*accessInfo
+	accesses map[interface{}]*accessInfo
 	sleepGen int
 }
 
@@ -56,7 +56,7 @@ var maxPreempts = 1
 
 func (in *Interp) ensureSched() *scheduler {
 	if in.sched == nil {
-		s := &scheduler{in: in, locks: map[*Value]*lockState{}, conds: map[*Value][]*condWaiter{}, accesses: map[*Value]*accessInfo{}}
+		s := &scheduler{in: in, locks: map[*Value]*lockState{}, conds: map[*Value][]*condWaiter{}, accesses: map[interface{}]*accessInfo{}}
 		g := &goroutine{id: 0, resume: make(chan struct{}, 1), locks: map[*Value]bool{}}
 		s.gs = []*goroutine{g}
 		s.cur = g
@@ -607,6 +607,48 @@ func (in *Interp) noteAccess(p *Value, write bool) {
 	if s == nil || len(s.gs) < 2 || in.tracked == nil || !in.tracked[p] {
 		return
 	}
+	in.noteLoc(p, write)
+}
+
+// noteAccessDeep records an access to the location and to every field / element inside it (a store
+// or load of an aggregate touches all of its parts).
+func (in *Interp) noteAccessDeep(p *Value, write bool) {
+	s := in.sched
+	if s == nil || len(s.gs) < 2 || in.tracked == nil {
+		return
+	}
+	var rec func(q *Value, d int)
+	rec = func(q *Value, d int) {
+		if in.tracked[q] {
+			in.noteLoc(q, write)
+		}
+		if d > 4 {
+			return
+		}
+		switch x := (*q).(type) {
+		case Struct:
+			for i := range x {
+				rec(&x[i], d+1)
+			}
+		case Array:
+			for i := range x {
+				rec(&x[i], d+1)
+			}
+		}
+	}
+	rec(p, 0)
+}
+
+func (in *Interp) noteMapAccess(m *Map, write bool) {
+	s := in.sched
+	if s == nil || len(s.gs) < 2 || in.trackedMaps == nil || !in.trackedMaps[m] {
+		return
+	}
+	in.noteLoc(m, write)
+}
+
+func (in *Interp) noteLoc(p interface{}, write bool) {
+	s := in.sched
 	g := s.cur
 	a := s.accesses[p]
 	if a == nil {
